@@ -196,19 +196,15 @@ func normText(s string) string {
 }
 
 func normPanic(r any) string {
-	switch x := r.(type) {
-	case runtime.Error:
-		// index/slice out of range and friends: the same class of failure, the exact text is not part of the claim
-		return "panic(runtime error)"
-	case error:
-		return "panic(error value)"
-	case string:
-		if strings.Contains(x, "peer ") {
-			return "panic(" + x + ")" // the injected peer's own panic passes through unchanged
-		}
-		return "panic(string)"
+	// the injected peer's own panic passes through the buffer unchanged
+	if x, ok := r.(string); ok && strings.Contains(x, "peer ") {
+		return "panic(" + x + ")"
 	}
-	return "panic(other)"
+	// a panic of the buffer itself: that it panics at this point is compared; its value is not
+	// (the two types cannot word it identically, and whether the value is a string, an error or a
+	// runtime error - index out of range versus an explicit check - is not part of the claim)
+	_ = runtime.Version
+	return "panic(own)"
 }
 
 // bufStep runs one op on b and renders everything observable as a string.
